@@ -104,3 +104,18 @@ Theorem C03_code_upload_tofu_tie : ltac:(let t := type of @EquivTofu.upload_tofu
 Proof. exact (@EquivTofu.upload_tofu_tie). Qed.
 Print Assumptions C03_code_upload_tofu_tie.
 
+(* ---- tie to the code (client/session.py: the pin check and the first-use pin happen before the request is sent, in one step): theorems of coq/Equiv/EquivSession.v (statements there), re-checked against the definitions
+   regenerated from /repo's working tree; see DESIGN.md 11.8 ---- *)
+From NV Require Equiv.EquivSession.
+Theorem C03_code_get_single_tie : ltac:(let t := type of @EquivSession.get_single_tie in exact t).
+Proof. exact (@EquivSession.get_single_tie). Qed.
+Print Assumptions C03_code_get_single_tie.
+
+Theorem C03_code_upload_tie : ltac:(let t := type of @EquivSession.upload_tie in exact t).
+Proof. exact (@EquivSession.upload_tie). Qed.
+Print Assumptions C03_code_upload_tie.
+
+Theorem C03_code_get_single_c11 : ltac:(let t := type of @EquivSession.get_single_c11 in exact t).
+Proof. exact (@EquivSession.get_single_c11). Qed.
+Print Assumptions C03_code_get_single_c11.
+
